@@ -188,6 +188,26 @@ def lemma(B):
     B.prove("FP lemma: 0 <= fl(r)*c <= fl(r) for every double c in [0,1], 32-bit r >= 1 (z3: unsat expected)", res == "unsat")
 
 
+def native_seeded(B, count, edge):
+    """[native replay] with the REAL generator: seeding the random module makes the result reproducible"""
+    import random
+    B.restore_patches()
+    from edgegraph.builder.randgraph import randgraph
+    cls = B.cls(EDGE[edge])
+
+    def shape(u):
+        vs = u.vertices
+        return [(v.i, [(type(l).__name__, vs.index(l.v1), vs.index(l.v2)) for l in v.links]) for v in vs]
+    ok = True
+    for s in (0, 1, 7):
+        random.seed(s)
+        g1 = shape(randgraph(count=count, edge=cls))
+        random.seed(s)
+        g2 = shape(randgraph(count=count, edge=cls))
+        ok = ok and (g1 == g2)
+    B.prove("[native replay] random.seed(s) makes randgraph reproducible (real generator, seeds 0, 1, 7)", ok)
+
+
 def scenario(B, p):
     if p["mode"] == "lemma":
         B.reach("lemma")
@@ -214,6 +234,7 @@ def scenario(B, p):
                 B.rng_rewind()
                 again = B.run(PROG_AGAIN, out)
                 B.prove("the same RNG answers give the same graph (reproducible under seeding)", again["same"])
+                B.native_only(lambda NB: native_seeded(NB, count, p["edge"]))
         return
     out = B.run(PROG_ADJ, env)
     B.observe("raised", out["raised"])
